@@ -5,6 +5,7 @@ a list of failure messages (empty = ok).  Add the module name to MODULES."""
 import importlib
 
 MODULES = [
+    "bn",
     "ec",
     "ecdsa",
     "streebog",
